@@ -37,7 +37,12 @@ TIE = ("T (conditions and effects of the finalizer block of process_resource_cau
        "replayed through `lstep`: every label enabled, abstract state equal after each) + R (REAL threads on a real loop, harness/props/threads_c06.py: "
        "the real invocation.invoke of a gated sync function under label lists cancel/wake/return/raise vs. the LTS `istep` — task done / "
        "function returned after each label and how the task ended; the real process_resource_event with a sync @kopf.daemon/@kopf.timer "
-       "against the in-memory API server: every stop_daemons call vs. `stopDelay`)")
+       "against the in-memory API server: every stop_daemons call vs. `stopDelay`) + L (the slots model `sstep` of C06_Slots, differential on the "
+       "SAME whole-operator simulations: per (operator memory of an object, handler id) one label per real step — spawn_daemons visiting a "
+       "matching handler / a stopper being set on an invocation (DAEMON_ABANDONED = `abandon`, else `tell`) / the end of `_runner` — and "
+       "after EVERY label the real state vs. the model's: which invocation memory.running_daemons[id] holds, which invocations are alive, "
+       "which of them are told to stop / abandoned; after every stop_daemons call given one daemon: delay reported or none vs. `noDelay`; "
+       "a label the model has disabled is a tie failure)")
 LEVEL_TEXT = ("Lean theorems for ALL finalizer lists / fn sequences / decision inputs / label lists of the LTS (deletion requests, label "
               "edits, foreign finalizer edits and other writes, cycles on stale event bodies, handler & daemon completions, "
               "re-scheduling of purged deletion handlers, genuine or injected 422, restarts, foreign writes between any two requests "
@@ -68,7 +73,11 @@ LEVEL_TEXT = ("Lean theorems for ALL finalizer lists / fn sequences / decision i
               "done before the function has returned, however often it is cancelled), sync_cancellation_not_lost, "
               "sync_task_finishes_after_return, stop_no_delay_spec (stop_daemons reports no delay iff the task is done or backoff+timeout "
               "are over) and their composition release_waits_for_sync_daemon; the variant that leaves the thread behind: "
-              "detached_thread_witness, detached_release_witness (seed C06f). Tied by real-thread runs (tie R).")
+              "detached_thread_witness, detached_release_witness (seed C06f). Tied by real-thread runs (tie R). The record of invocations per handler id "
+              "(C06_Slots: spawn only when nothing is recorded under the id, stop stages on the recorded invocation, deletion BY ID when an invocation ends): "
+              "FULL theorems for every label list — never_two_invocations, live_invocation_is_recorded, no_delay_only_when_all_exited_or_abandoned — with the "
+              "variant that starts a new invocation over an abandoned one: respawn_over_abandoned_witness, respawn_two_alive_witness (seed C06h); tied "
+              "differentially on the whole-operator runs (tie L).")
 THEOREMS = [("Kopf.Props.C06", "Kopf.C06." + n) for n in [
     "foreign_untouched", "order_preserved", "block_spec", "allow_spec", "block_idempotent", "allow_idempotent",
     "allow_after_block", "patch_is_fn_of_tested", "foreign_untouched_lts", "decision_spec",
@@ -113,7 +122,11 @@ TRUSTED = ["harness/props/threads_c06.py (real loop + ThreadPoolExecutor; gates 
            "executor future's done-callbacks have run; the minimal worker feeding process_resource_event one cycle per stored version; "
            "'function running' is read on the loop thread at the instant of the write)",
            "harness/props/sim_c06.py (stacked registrations, handler-supplied patch fns, foreign-finalizer ops for a configured finalizer name, "
-           "the `linger` and `drag` daemons, the per-invocation watcher of the `stopped` kwarg = the instant an invocation was told to stop) on top of harness/sim (virtual-time loop, fake API server incl. JSON-patch `test` → 422 and deletion by last-finalizer removal, "
+           "the `linger` and `drag` daemons, the per-invocation watcher of the `stopped` kwarg = the instant an invocation was told to stop; for tie L the "
+           "wrappers of daemons.spawn_daemons / stop_daemons / _runner and of FlagSetter.set (module/class attributes, additive): invocations are numbered in the "
+           "order in which spawn_daemons recorded a new Daemon under the id, identified by their stopper object; 'alive' = its `_runner` has not left its "
+           "epilogue; the state is read from memory.running_daemons and the stoppers at the instant of the label, with no suspension point in between; the "
+           "epilogue's own stopper.set(DONE) is not a label; two visits of one id inside one spawn_daemons call are observed after the second only) on top of harness/sim (virtual-time loop, fake API server incl. JSON-patch `test` → 422 and deletion by last-finalizer removal, "
            "scripted handlers/daemons, attribute-level observation of kopf)",
            "pyextract atom vocabulary for the finalizer block of processing.process_resource_causes",
            "abstraction of a cycle: matching = label filters of the scenario's handlers evaluated on the body the cycle was given; "
@@ -132,6 +145,9 @@ ASSUMPTIONS = ["handler filters in generated scenarios are label filters only; D
                "instance that was asked to stop for a filter mismatch still holds its id while the object matches again (/repo ef26531: "
                "such cycles return a polling delay on an UNMARKED matching object — no release is at stake there; the per-cycle tie S "
                "takes the observed spawning delays and covers those cycles)",
+               "tie L abstracts nothing about time: when the timeouts are over (`abandon` enabled) is taken from the run (C09 owns the stages; tie R has "
+               "`stopDelay`); the report of a stop_daemons call is compared only when the call was given exactly one daemon (the delays are not "
+               "attributed per daemon otherwise); pause_daemons is not exercised (no peering in the simulations); the model runs with `reuse = false`",
                "'finished' in the oracle = the latest handling pass before the instant left the handler finished (record kept, or "
                "final outcome in that pass); a purged-and-reinvoked handler counts as unfinished again",
                "liveness: the oracle judges only histories whose last 25 virtual seconds are quiet and in which no 422 was injected "
@@ -1888,6 +1904,73 @@ def run_threads(ctx: Ctx, n_invoke: int, n_e2e: int, corpus_only: bool = False) 
 
 
 
+def slot_histories(ctx: Ctx, sc: dict, tr: dict) -> list[tuple[list, list, dict]]:
+    """Tie L: the daemon-related observations of one whole-operator run (harness/props/sim_c06.py: every spawn_daemons call for a
+    matching handler, every stopper.set of an invocation, every end of `_runner`, every stop_daemons call given one daemon),
+    one history per (operator memory of the object, handler id), as the model's labels + what was read off the real
+    `memory.running_daemons` / tasks / stoppers right after each. → [(labels, checks, where)], checks = (index of the label
+    after which it was observed, kind, observation)."""
+    hists: dict[tuple, list[dict]] = {}
+    for e in tr.get("slots") or []:
+        hists.setdefault((e["mem"], e["hid"]), []).append(e)
+    fam = sc.get("family", "general")
+    out = []
+    for (mem, hid), evs in hists.items():
+        labels: list[list] = []
+        checks: list[tuple[int, str, Any]] = []
+        abandoned: set[int] = set()
+        shape = set()
+        for e in evs:
+            lab = e["label"]
+            if lab[0] == "report":
+                checks.append((len(labels) - 1, "report", e["obs"]))
+                ctx.count("L.stop_daemons_report", "no delay" if e["obs"]["noDelay"] else "delay")
+                continue
+            prev = ([c[2] for c in checks if c[1] == "state"] or [None])[-1]
+            labels.append(lab)
+            ctx.count("L.label_kinds", lab[0])
+            ctx.count(f"L.label_kinds[{fam}]", lab[0])
+            if e["obs"] is None:
+                ctx.count("L.labels_without_snapshot (same id twice in one spawn_daemons call)", 1)
+                continue
+            obs = e["obs"]
+            checks.append((len(labels) - 1, "state", obs))
+            if lab[0] == "abandon":
+                abandoned |= {i[0] for i in obs["live"] if i[2]}
+            if lab[0] == "exit" and lab[1] in abandoned:
+                shape.add("an abandoned invocation ended later")
+            if lab[0] == "spawn" and prev is not None and prev["slot"] is not None:
+                rec = [i for i in prev["live"] if i[0] == prev["slot"]]
+                shape.add("spawn over a recorded invocation: " + ("abandoned" if rec and rec[0][2] else "told to stop" if rec and rec[0][1]
+                                                                    else "running" if rec else "not alive"))
+            if lab[0] == "spawn" and obs["slot"] not in (None, 0) and (prev is None or prev["slot"] != obs["slot"]):
+                shape.add("a later invocation started")
+        for sh in shape or {"plain"}:
+            ctx.count("L.histories", sh)
+            ctx.count(f"L.histories[{fam}]", sh)
+        ctx.count("L.labels_per_history", min(len(labels), 40) // 5 * 5)
+        out.append((labels, checks, {"scenario": sc, "what": "slots", "memory": mem, "handler": hid, "labels": labels}))
+    return out
+
+
+def compare_slots(ctx: Ctx, states: list, checks: list, wh: dict) -> None:
+    for idx, kind, obs in checks:
+        st = states[idx] if 0 <= idx < len(states) else {"disabled": "(no state)"}
+        at = {**wh, "labels": wh["labels"][:idx + 1], "after_label": idx}
+        if "disabled" in st or any("disabled" in x for x in states[:idx]):
+            ctx.compare("C06 slots: the label the operator was seen to take is enabled in sstep", {"enabled": True}, {"enabled": False}, at)
+            return
+        if kind == "state":
+            ctx.count("L.comparisons", "state after a label (recorded invocation, invocations alive, told/abandoned)")
+            if not ctx.compare("C06 slots: running_daemons[id] / alive invocations / stop flags after a label", obs,
+                               {"slot": st["slot"], "live": st["live"]}, at):
+                return
+        else:
+            ctx.count("L.comparisons", "stop_daemons report (delay or none)")
+            if not ctx.compare("C06 slots: what stop_daemons reported for the recorded invocation", obs, {"noDelay": st["noDelay"]}, at):
+                return
+
+
 def run_scenarios(ctx: Ctx, scenarios: list[dict], names: list[str | None]) -> None:
     results = pool.run_many(scenarios, wall=40.0)
     reqs, impls, where = [], [], []
@@ -1918,6 +2001,10 @@ def run_scenarios(ctx: Ctx, scenarios: list[dict], names: list[str | None]) -> N
             reqs.append(["C06.replay", OWN, init, titems])
             impls.append({"accepted": len(titems)})
             where.append({"scenario": sc, "what": "trace acceptance", "items": titems if len(titems) < 80 else titems[:80]})
+        for slabels, schecks, swh in slot_histories(ctx, sc, tr):
+            reqs.append(["C06.slots", slabels])
+            impls.append(schecks)
+            where.append(swh)
         prev: dict[tuple, dict] = {}
         for cyc in tr["cycles"]:
             ab = abstract_cycle(view, cyc)
@@ -1995,6 +2082,8 @@ def run_scenarios(ctx: Ctx, scenarios: list[dict], names: list[str | None]) -> N
             ctx.compare("C06 trace acceptance (labels enabled in lstep, abstract state equal)", impl, m, wh)
         elif req[0] == "C06.sleeps":
             ctx.compare("C06 sleep-then-touch after delays", impl, m, wh)
+        elif req[0] == "C06.slots":
+            compare_slots(ctx, m, impl, wh)
         else:
             view_fins = req[3]
             sent = m["sent"]
